@@ -260,6 +260,21 @@ static void c04_check(World* w, const Position& p, const char* where)
         w->violation("C04", "pawnkey-depends-on-non-pawn-state", std::string(where) + ": " + fen);
 }
 
+// C04, "whichever move order, make/unmake path or FEN they were reached by": the position the engine arrived at by
+// moves (a game replayed through `position ... moves`, or the search's own path) against the same position - as the
+// rules give it for that move list - set up from its FEN.
+static void c04_same_key_as_fen(World* w, const Position& p, const ref::Board& mb, const char* where)
+{
+    w->counters["c04_path_vs_fen_checks"]++;
+    Position fresh(mb.fen());
+    if (fresh.hash() != p.hash())
+        w->violation("C04", "same-position-different-key",
+                     std::string(where) + ": reached by moves the key differs from the key of the same position set up from its FEN " + mb.fen() + " (the engine's own description of what it reached: " +
+                         key4_of_fen(p.fen()) + ")");
+    else if (fresh.pawn_hash() != p.pawn_hash())
+        w->violation("C04", "pawnkey-depends-on-non-pawn-state", std::string(where) + ": pawn key reached by moves differs from the pawn key of " + mb.fen());
+}
+
 static ref::RMove decode_engine_move(Move mv, int side)
 {
     ref::RMove r;
@@ -321,7 +336,7 @@ void World::monitor_go_entry(Task* t, Search* s)
 {
     (void)t;
     if (cfg.mon_c03) take_snap(s->_position, mon->root, true);
-    if (cfg.mon_c07)
+    if (cfg.mon_c07 || cfg.mon_c04)
     {
         mon->root_game_copy = game;  // model game as of the go command (the GUI is sequential: no position change during a search)
         if (t->go_index >= 0)
@@ -361,7 +376,7 @@ void World::monitor_node(Task* t, int id, const Position* pos, const Info* info)
         counters["c03_snapshots"]++;
     }
     if (cfg.mon_c04 && heavy) c04_check(this, *pos, "search node");
-    if (cfg.mon_c07 && m->root_game)
+    if ((cfg.mon_c07 || cfg.mon_c04) && m->root_game)
     {
         if (ply == 0)
         {
@@ -406,7 +421,8 @@ void World::monitor_node(Task* t, int id, const Position* pos, const Info* info)
             if (m->pathlen[ply] == 0) earlier--;  // the root itself is the last game key
             for (int i = 1; i < m->pathlen[ply]; ++i)
                 if (m->pathkeys[i] == cur) earlier++;
-            c07_compare(this, *pos, m->mboard[ply], earlier, "search node", false);
+            if (cfg.mon_c07) c07_compare(this, *pos, m->mboard[ply], earlier, "search node", false);
+            if (cfg.mon_c04) c04_same_key_as_fen(this, *pos, m->mboard[ply], "search node");
         }
     }
 }
@@ -563,6 +579,7 @@ void World::run_driver_op(const Op& op)
     if (name == "c04")
     {
         c04_check(this, uci->position, "after position command");
+        c04_same_key_as_fen(this, uci->position, game.cur, "after position command");
         return;
     }
     if (name == "c03snap")
